@@ -70,7 +70,7 @@ func fieldStoresVia(fn *ssa.Function, root ssa.Value) []fieldStore {
 				continue
 			}
 			fa, ok := st.Addr.(*ssa.FieldAddr)
-			if !ok || fa.X != root {
+			if !ok || !aliasOfParam(fa.X, root) {
 				continue
 			}
 			out = append(out, fieldStore{fieldName(fa), st})
@@ -89,7 +89,7 @@ func fieldLoadsVia(fn *ssa.Function, root ssa.Value) map[string][]*ssa.UnOp {
 				continue
 			}
 			fa, ok := u.X.(*ssa.FieldAddr)
-			if !ok || fa.X != root {
+			if !ok || !aliasOfParam(fa.X, root) {
 				continue
 			}
 			out[fieldName(fa)] = append(out[fieldName(fa)], u)
@@ -464,4 +464,28 @@ func afterOptionLoop(fn *ssa.Function, in ssa.Instruction) bool {
 		}
 	}
 	return false
+}
+
+// aliasOfParam: v is root, or a load of the cell root was spilled into because a function literal captures it
+// (go/ssa then reads the parameter through `*cell` everywhere; the cell is only ever assigned root).
+func aliasOfParam(v, root ssa.Value) bool {
+	if v == root {
+		return true
+	}
+	u, ok := v.(*ssa.UnOp)
+	if !ok || u.Op != token.MUL {
+		return false
+	}
+	a, ok := u.X.(*ssa.Alloc)
+	if !ok {
+		return false
+	}
+	n := 0
+	for _, st := range storesInto(a) {
+		if st.Val != root {
+			return false
+		}
+		n++
+	}
+	return n > 0
 }
